@@ -3,17 +3,19 @@
    Models: Monitor/Monitor.v (scan_policies), Monitor/Spec.v (the property). *)
 From Coq Require Import ZArith List Bool.
 From PK Require Import Monitor.AList Monitor.Monitor Monitor.Spec Monitor.Views Monitor.Refine Monitor.Wf Monitor.Broken.
-From PK Require Import Monitor.Parse Monitor.ParseProofs Monitor.ParseCases.
+From PK Require Import Monitor.Parse Monitor.ParseProofs Monitor.ParseCases Monitor.MonitorCases.
+From PKGen Require Import PolicyNames.
 Import ListNotations.
 Open Scope Z_scope.
 
 (* ------------------------------------------------------------------ reserved names *)
-(* On EVERY history of directory views (no side condition on the events), from any initial
-   store: the reserved names keep exactly the definition the store had at start (or stay
+(* For the released code (purge = false) and for the code with fixes/C18-stale-cache.diff
+   (purge = true): on EVERY history of directory views (no side condition on the events), from
+   any initial store: the reserved names keep exactly the definition the store had at start (or stay
    absent), and no file ever becomes their owner. *)
-Theorem reserved_untouched : forall s h, Forall wf_fs h ->
+Theorem reserved_untouched : forall purge s h, Forall wf_fs h ->
   forall q, reserved q = true ->
-    get q (st_store (run s h)) = get q s /\ get q (st_map (run s h)) = None.
+    get q (st_store (run_gen purge s h)) = get q s /\ get q (st_map (run_gen purge s h)) = None.
 Proof. exact reserved_untouched_run. Qed.
 Print Assumptions reserved_untouched.
 
@@ -52,6 +54,23 @@ Theorem scan_refines_spec_partial : forall s h, Forall wf_fs h -> hist_ok s h = 
 Proof. exact run_refines_spec. Qed.
 Print Assumptions scan_refines_spec_partial.
 
+(* the code with fixes/C18-stale-cache.diff applied (model variant purge = true): full strength *)
+Theorem scan_refines_spec_fixed : forall s h, Forall wf_fs h ->
+  forall q, get q (st_store (run_gen true s h)) = spec_store (spec_run s h) q.
+Proof. exact run_refines_spec_fixed. Qed.
+Print Assumptions scan_refines_spec_fixed.
+
+(* whichever variant the source is today (gen/PolicyNames.v, regenerated on every run) *)
+Theorem scan_refines_spec_current : forall s h, Forall wf_fs h ->
+  monitor_purges_shadowed = true \/ hist_ok s h = true ->
+  forall q, get q (st_store (run_gen monitor_purges_shadowed s h)) = spec_store (spec_run s h) q.
+Proof.
+  intros s h Hh [H|H] q.
+  - rewrite H. now apply run_refines_spec_fixed.
+  - destruct monitor_purges_shadowed; [now apply run_refines_spec_fixed | now apply run_refines_spec].
+Qed.
+Print Assumptions scan_refines_spec_current.
+
 (* the hypotheses are satisfiable by a history with shadowing, restoring after a removal,
    restoring after the owner drops the name, a broken file and a reserved name in a file *)
 Definition good_history : list fs_view :=
@@ -76,11 +95,12 @@ Proof. split; [apply wf_histb_ok; vm_compute; reflexivity | vm_compute; split; r
 (* After any history, the next scan yields the same policies in force, owners and cache
    whether a file that is invalid is seen as changed (any mtime) or as untouched: it is
    rejected as a whole, and a valid file that became invalid keeps its old definitions. *)
-Theorem broken_file_no_effect : forall s h fs fs', Forall wf_fs h -> wf_fs fs -> wf_fs fs' ->
+Theorem broken_file_no_effect : forall purge s h fs fs', Forall wf_fs h -> wf_fs fs -> wf_fs fs' ->
   same_but_broken fs fs' ->
-  forall q, get q (st_store (scan fs (run s h))) = get q (st_store (scan fs' (run s h))) /\
-            get q (st_map (scan fs (run s h))) = get q (st_map (scan fs' (run s h))) /\
-            get q (st_cache (scan fs (run s h))) = get q (st_cache (scan fs' (run s h))).
+  let m := run_gen purge s h in
+  forall q, get q (st_store (scan_gen purge fs m)) = get q (st_store (scan_gen purge fs' m)) /\
+            get q (st_map (scan_gen purge fs m)) = get q (st_map (scan_gen purge fs' m)) /\
+            get q (st_cache (scan_gen purge fs m)) = get q (st_cache (scan_gen purge fs' m)).
 Proof. exact broken_no_effect_run. Qed.
 Print Assumptions broken_file_no_effect.
 
@@ -97,6 +117,15 @@ Proof.
   - left. simpl. destruct (g =? 0); [reflexivity|].
     destruct (g =? 1) eqn:E; [apply Z.eqb_eq in E; contradiction | reflexivity].
 Qed.
+
+(* ------------------------------------------------------------------ consistent tracking structures *)
+(* on every history a non reserved name is absent from store, owner map and cache, or present
+   in all three (eff = Some _): the state in which monitor.py l.120 meets None does not arise
+   between scans *)
+Theorem tracking_consistent : forall purge s h, Forall wf_fs h ->
+  forall q, reserved q = false -> exists E, eff (view_of (run_gen purge s h) q) = Some E.
+Proof. exact tracking_consistent_run. Qed.
+Print Assumptions tracking_consistent.
 
 (* ------------------------------------------------------------------ the parser *)
 (* Whatever the file holds - not JSON, or any JSON value - and whatever the enumerations
